@@ -23,6 +23,9 @@ static void b_addval(unsigned n)
 	__CPROVER_assume(n > 0 || o.values == NULL);
 	snap(&o, &s);
 	r = cfg_addval(&o);
+#ifdef CFGV_NO_ALLOC_FAILURE
+	CHECK("C09", r != NULL, "addval succeeds (no allocation failure in this unit)");
+#endif
 	if (r) {
 		CHECK("C09,C18", o.nvalues == n + 1 && o.values[n] == r && r->number == 0, "addval appends one zeroed slot");
 		CHECK("C09", o.flags == (s.flags | CFGF_MODIFIED), "addval marks the option modified and touches no other flag");
@@ -64,6 +67,9 @@ static void b_setmulti(unsigned n, unsigned m, int failpos)
 
 	rc = cfg_opt_setmulti(&cfg, &o, m, texts);
 
+#ifdef CFGV_NO_ALLOC_FAILURE
+	CHECK("C09,C04", !(failpos < 0 || failpos >= (int)m) || rc == CFG_SUCCESS, "bulk set succeeds when every element converts (no allocation failure in this unit)");
+#endif
 	if (rc == CFG_SUCCESS) {
 		CHECK("C09,C10,C04", failpos < 0 || failpos >= (int)m, "bulk set succeeds only when every element converts");
 		CHECK("C09", o.nvalues == ((k_flags & CFGF_LIST) ? m : 1) && (o.flags & CFGF_MODIFIED) && !(o.flags & CFGF_RESET), "bulk set: exactly the new values (a scalar keeps the last), marked modified, no longer a default");
@@ -191,6 +197,9 @@ static void b_setnint_byname(unsigned n)
 			CHECK("C14", g_v2_cfg == &cfg && g_v2_opt == &o && g_v2_seen == v, "the pre-set validation callback sees the context, the option and the value");
 			CHECK("C14,C10", g_v2_ret == 0 || (rc == CFG_FAIL && same(&o, &s)), "a veto of the pre-set validation callback fails the setter without effect");
 		}
+#ifdef CFGV_NO_ALLOC_FAILURE
+		if (!(hascb && g_v2_ret != 0) && (in_index == 0 || (in_flags & (CFGF_LIST | CFGF_MULTI)))) CHECK("C14,C09", rc == CFG_SUCCESS, "by-name setter: an accepted value with a legal index is stored (no allocation failure in this unit)");
+#endif
 		if (rc == CFG_SUCCESS) {
 			long stored = (hascb && g_v2_do_rewrite) ? g_v2_rewrite : v;
 			unsigned at = in_index < n ? in_index : n;
@@ -219,6 +228,9 @@ void h_setnstr_byname(void)
 	CHECK("C14", g_v2_calls == (hascb ? 1 : 0) && (!hascb || (g_v2_str_seen == v && g_v2_opt == &o && g_v2_cfg == &cfg)), "string by-name setter: the validation callback is called once with the value");
 	CHECK("C14,C10", !hascb || g_v2_ret == 0 || (rc == CFG_FAIL && same(&o, &s)), "string by-name setter: a veto fails the setter without effect");
 	CHECK("C14", rc != CFG_SUCCESS || strcmp(o.values[0]->string, v) == 0, "string by-name setter stores the value");
+#ifdef CFGV_NO_ALLOC_FAILURE
+	CHECK("C14,C09", (hascb && g_v2_ret != 0) || rc == CFG_SUCCESS, "string by-name setter: an accepted value is stored (no allocation failure in this unit)");
+#endif
 	CANARY("setnstr_byname");
 }
 static int g_v2f_calls; static double g_v2f_seen;
@@ -239,6 +251,9 @@ void h_setnfloat_byname(void)
 	CHECK("C14", g_v2f_calls == 1 && g_v2f_seen == v, "float by-name setter: the validation callback is called once and sees the value");
 	CHECK("C14,C10", g_v2_ret == 0 || (rc == CFG_FAIL && same(&o, &s)), "float by-name setter: a veto fails the setter without effect");
 	CHECK("C14", rc != CFG_SUCCESS || o.values[0]->fpnumber == v, "float by-name setter stores the value");
+#ifdef CFGV_NO_ALLOC_FAILURE
+	CHECK("C14,C09", g_v2_ret != 0 || rc == CFG_SUCCESS, "float by-name setter: an accepted value is stored (no allocation failure in this unit)");
+#endif
 	CANARY("setnfloat_byname");
 }
 
